@@ -384,6 +384,19 @@ def near_tie_configs(tier):
     return out
 
 
+def ulp_tie_configs(tier):
+    """N = 8, t = 1/4 (null total 2): values 0, 1 and 9, 11, 13 units of 2^-51, so that after 1, 1 the running total sits 18 to 26
+    machine epsilons above the null total.  A total that close is an excess or a tie according to a rounding allowance
+    that may depend on the number of draws summed so far, but not on how many draws FOLLOW: samples of 4, 5, 6 draws
+    with the same beginning must tell the same story about it (used by C05 only, whose oracle is differential)"""
+    out = []
+    for test, estim, bet, kw in (("alpha_mart", None, None, {"eta": "1/2"}), ("alpha_mart", "shrink_trunc", None, {"eta": "1/2"}), ("betting_mart", None, "fixed_bet", {"lam": "1"}),
+                                 ("betting_mart", None, "agrapa", {"lam": "1"}), ("kaplan_kolmogorov", None, None, {"g": 0}), ("wald_sprt", None, None, {"eta": "1/2"})):
+        out.append({"test": test, "estim": estim, "bet": bet, "kw": kw, "u": "1", "t": "1/4", "N": 8, "H": None, "k": 3 if tier == "quick" else 4, "D": 6 if tier == "quick" else 7,
+                    "vals": ["0", "1", "11/2251799813685248", "13/2251799813685248"] + (["9/2251799813685248"] if tier != "quick" else []), "ro": True})
+    return out
+
+
 def bign_configs(tier):
     """short samples from a LARGE population (N = 1000, 100000): the first few draws are < 1% of the population"""
     out = []
